@@ -66,10 +66,26 @@ ReadBackOK(e, dd, post) ==
         v == e.rb[k][2]
     IN IF i >= Pow2(dd) THEN v = -1 ELSE v = Lf(post, i)
 
+Asc(s) == \A k \in 1..(Len(s) - 1) : s[k] < s[k + 1]
 EmptiesOK(e, post) ==
-  "empties" \in DOMAIN e =>
-     /\ \A k \in 1..(Len(e.empties) - 1) : e.empties[k] < e.empties[k + 1]
-     /\ SeqSet(e.empties) = Empties(post)
+  /\ "empties" \in DOMAIN e =>
+       /\ Asc(e.empties)
+       /\ SeqSet(e.empties) = Empties(post)
+  \* a list too long to be logged comes as its length and both ends: the length is the model's, the head is exactly the model's
+  \* empty positions up to the head's last element, the tail exactly those from the tail's first element on
+  /\ "empties_n" \in DOMAIN e =>
+       \* (never enumerate the empty positions of a large tree: count through the flag set, which holds touched positions only)
+       LET hd == e.empties_head
+           tl == e.empties_tail
+           nx == post.next
+           Flagged(lo, hi) == Cardinality({i \in post.fl : lo <= i /\ i <= hi})
+           IsEmpty(i) == i >= 0 /\ i < nx /\ i \notin post.fl
+       IN /\ Len(hd) > 0 /\ Len(tl) > 0 /\ Asc(hd) /\ Asc(tl)
+          /\ e.empties_n = nx - Flagged(0, nx - 1)
+          /\ \A k \in 1..Len(hd) : IsEmpty(hd[k])
+          /\ \A k \in 1..Len(tl) : IsEmpty(tl[k])
+          /\ Len(hd) = (hd[Len(hd)] + 1) - Flagged(0, hd[Len(hd)])          \* as many as there are empty positions up to its last
+          /\ Len(tl) = (nx - tl[1]) - Flagged(tl[1], nx - 1)                 \* as many as there are from its first on
 
 StateOK(e, x, post) ==
   /\ Posted(e)
@@ -195,7 +211,9 @@ Why(e, x) ==
          ELSE (IF e.next = post.next THEN <<>> ELSE <<"next", e.next, "expected", post.next>>)
            \o (IF ReadBackOK(e, x.d, post) THEN <<>> ELSE <<"leaves read back", e.rb, "expected from", post.lv>>)
            \o (IF x.hk = 1 /\ e.root # SNode(x.d, post.lv, x.zs, 0, 0) THEN <<"root is not the ideal root of", post.lv>> ELSE <<>>)
-           \o (IF EmptiesOK(e, post) THEN <<>> ELSE <<"empties", e.empties, "expected", Empties(post)>>))
+           \o (IF EmptiesOK(e, post) THEN <<>>
+               ELSE IF "empties" \in DOMAIN e THEN <<"empties", e.empties, "expected", Empties(post)>>
+               ELSE <<"empties (long list)", e.empties_n, "expected", post.next - Cardinality({i \in post.fl : i < post.next})>>))
 
 Deviation ==
   /\ IsCall /\ Tracked /\ Judged /\ ~PropOK(E, X) /\ ~PmKF(E, X)
